@@ -26,7 +26,7 @@ BUDGET = {
     "quick": {"cases": 7200, "seconds": 90, "shards": 8},
     "thorough": {"cases": 100000, "seconds": 900, "shards": 16},
 }
-REQUIRED_OBS = ["exhaustive_small_graph_cases", "forest_checked:knn", "forest_checked:unsup", "arc_membership_checked", "plateau_arcs_seen", "depth>=2", "roots>=2", "propagate_checked",
+REQUIRED_OBS = ["exhaustive_small_graph_cases", "unit_gap_cases", "forest_checked:knn", "forest_checked:unsup", "arc_membership_checked", "plateau_arcs_seen", "depth>=2", "roots>=2", "propagate_checked",
                 "hook_snapshots"]
 MIN_NONTRIVIAL = 100
 NIL = -1
@@ -174,6 +174,63 @@ def check(case):
     return res
 
 
+def _unit_gap_matrix(d34, d40):
+    n, D = 5, np.full((5, 5), 5.0)
+    np.fill_diagonal(D, 0.0)
+    D[0, 1], D[1, 0], D[2, 3], D[3, 4], D[4, 0] = 0.01, 1.0, 0.05, d34, d40   # 1-NN: 0->1, 1->0, 2->3, 3->4, 4->0
+    return D
+
+
+def _unit_gap_case(d34, d40):
+    D = _unit_gap_matrix(d34, d40)
+    return {"model": "unsup", "metric": "log_squared_euclidean", "gclass": "pre:UNITGAP", "pattern": "unitgap", "X": [[float(i)] for i in range(5)],
+            "Y": [0, 0, 1, 1, 1], "V": [[0.0]], "YV": [1], "Q": [[0.0]], "min_k": 1, "max_k": 1, "refit": False, "propagate": False,
+            "pre": {"D": D.tolist(), "I": list(range(5)), "IV": None, "IQ": [0], "kind": "UNITGAP"}}
+
+
+def unit_gap_cases(count, seed):
+    """Designed boundary family for the clause `cost strictly above density - 1`: five samples, directed 1-NN arcs, where sample 3 (density T)
+    offers sample 4 a cost of exactly density(4) - 1 (density(4) == T + 1 bit-exactly, found by bisection on one matrix entry with the
+    library's own density computation).  The offer is not an improvement, so sample 4 must stay a root."""
+    import opfython.models.unsupervised as mu
+
+    def dens(d34, d40):
+        m = mu.UnsupervisedOPF(min_k=1, max_k=1, pre_computed_distance=None)
+        m.pre_computed_distance, m.pre_distances = True, _unit_gap_matrix(d34, d40)
+        m.fit(np.arange(5, dtype=float).reshape(5, 1), np.array([0, 0, 1, 1, 1]))
+        nd = m.subgraph.nodes
+        return float(nd[3].density), float(nd[4].density)
+
+    rng, out, tries = np.random.default_rng([seed, 13, 777]), [], 0
+    while len(out) < count and tries < count * 6:
+        tries += 1
+        d34 = float(rng.uniform(0.08, 0.4))
+        if tries % 4:
+            # aim density(3) just below a power of two, where density(4) - 1 and the pre-competition cost of sample 4 are most exposed to rounding
+            T = 2.0 ** int(rng.integers(5, 10)) - float(rng.uniform(0.0, 1.0))
+            A, B = math.exp(-0.045), math.exp(-4.5)
+            d34 = -math.log((T - 1) / 999 * (A - B) + B) / 4.5
+        lo, hi = 0.011, d34            # density falls as the distance grows: find d40 < d34 with density(4) - density(3) == 1
+        try:
+            t3, _ = dens(d34, lo)
+            for _ in range(70):
+                mid = (lo + hi) / 2
+                if mid in (lo, hi):
+                    break
+                if dens(d34, mid)[1] - t3 > 1:
+                    lo = mid
+                else:
+                    hi = mid
+            for cand in (hi, lo, float(np.nextafter(hi, 1)), float(np.nextafter(lo, 0))):
+                a, b = dens(d34, cand)
+                if b == a + 1:
+                    out.append(_unit_gap_case(d34, cand))
+                    break
+        except Exception:  # noqa: BLE001 - the probe itself must not decide anything; check() judges the cases it returns
+            continue
+    return out
+
+
 def extra(tier, seed, shard=0, nshards=1):
     """Bounded-exhaustive pass: every symmetric weight matrix over {1,2[,3]} on 4..5 nodes (3..4 in the quick tier) x labellings,
     as pre-computed matrices with a reversed index array, for both models and the k ranges 1..1, 1..2, 2..n-1, 1..n-1."""
@@ -201,5 +258,13 @@ def extra(tier, seed, shard=0, nshards=1):
                     agg.obs.update(r.obs)
     agg.see("exhaustive_small_graph_cases", n_cases)
     agg.cell("exhaustive-small-graphs", tier)
+    if shard == 0:
+        for case in unit_gap_cases(150 if tier == "quick" else 2000, seed):
+            r = check(case)
+            if r.violations:
+                out.append((case, r))
+            else:
+                agg.obs.update(r.obs)
+                agg.see("unit_gap_cases")
     out.append(({"exhaustive_small_graphs": {"tier": tier, "cases_this_shard": n_cases}}, agg))
     return out
